@@ -76,7 +76,10 @@ package yubiagent
 //@ func ServeAgent(agent, c)
 //@   requires agent != nil && c != nil
 //@   requires typeof(agent) == *server ==> (pl(agent) != 0 &&
-//@     (typeof(agent.(*server).ShimAgent) == *shimagent.Server ==> pl(agent.(*server).ShimAgent) != 0))
+//@     (typeof(agent.(*server).ShimAgent) == *shimagent.Server ==> (pl(agent.(*server).ShimAgent) != 0 &&
+//@       forall(i, 0 <= i && i < 40, agent.(*server).ShimAgent.(*shimagent.Server).conds[i] != nil &&
+//@         agent.(*server).ShimAgent.(*shimagent.Server).conds[i].L != nil &&
+//@         mstate(pl(agent.(*server).ShimAgent.(*shimagent.Server).conds[i].L)) == 0))))
 //@   modifies all
 //@   ensures [clean-eof] result == nil ==> (reads() >= 1 && ret(yubiagent.read, calls(yubiagent.read) - 1, 1) == io.EOF)
 //@   ensures [one-response-per-request] result == nil ==> responses() == reads() - 1
